@@ -52,12 +52,30 @@ def site_problems(ctx, n):
                                 S("P1", "S4_1", 290.0, 195.0, 190.0, 5.0)],
                        utilities=[U("TopU", "Both", 227.500375, 10.0), U("MidU", "Both", 123.7501875, 10.0), U("BotU", "Cold", 22.5, 5.0)]),
                   dict(zones=2, shapes=["grid-tie"], regime="witness")))
+    # a user tree with a Site inside a Site: both levels carry the three site records and both must satisfy the statement
+    probs.append((dict(streams=[S("A", "A.H1", 300.0, 120.0, 3600.0, 10.0), S("A", "A.C1", 100.0, 200.0, 1500.0, 10.0), S("B", "B.H1", 180.0, 60.0, 1200.0, 10.0),
+                                S("B", "B.C1", 90.0, 260.0, 5100.0, 10.0), S("Offices", "O.C1", 20.0, 80.0, 1200.0, 10.0), S("Offices", "O.H1", 90.0, 40.0, 250.0, 10.0)],
+                       utilities=[dict(name="HP steam", type="Hot", t_supply=300.0, t_target=299.0, heat_flow=0.0, dt_cont=5.0, htc=1.0, price=40.0),
+                                  dict(name="LP steam", type="Both", t_supply=140.0, t_target=139.0, heat_flow=0.0, dt_cont=5.0, htc=1.0, price=20.0),
+                                  dict(name="CW", type="Cold", t_supply=15.0, t_target=25.0, heat_flow=0.0, dt_cont=5.0, htc=1.0, price=2.0)],
+                       zone_tree=dict(name="Campus", type="Site", children=[
+                           dict(name="Plant", type="Site", children=[dict(name="A", type="Process Zone"), dict(name="B", type="Process Zone")]),
+                           dict(name="Offices", type="Process Zone")])),
+                  dict(zones=3, shapes=["nested-site"], regime="witness")))
     for i in range(n):
         if i % 4 == 0:
             probs.append(pc.gen_header_problem(ctx.rng))      # generation/use at nearly the same utility level
             continue
         regime = ctx.rng.choice(["none", "iso", "multi", "steered", "glide", "limit"])
-        probs.append(pc.gen_problem(ctx.rng, nzones=ctx.rng.choice([1, 2, 2, 3, 4]), regime=regime, nmax=5))
+        prob, m = pc.gen_problem(ctx.rng, nzones=ctx.rng.choice([1, 2, 2, 3, 4]), regime=regime, nmax=5)
+        if m["zones"] >= 3 and ctx.rng.random() < 0.5:
+            # a user tree that groups the first two zones into a site of their own
+            zs = [f"P{k}" for k in range(m["zones"])]
+            prob["zone_tree"] = dict(name="Project", type="Site", children=[
+                dict(name="Sub", type="Site", children=[dict(name=z, type="Process Zone") for z in zs[:2]])]
+                + [dict(name=z, type="Process Zone") for z in zs[2:]])
+            m = dict(m, shapes=m["shapes"] + ["nested-site"])
+        probs.append((prob, m))
     return probs
 
 
@@ -82,27 +100,30 @@ def run(ctx):
             ctx.fail("service-raises", f"{type(e).__name__}: {e}", suite="site", input=prob, predicate="service returns")
             continue
         recs = {t.name: t for t in out.targets}
-        site = mz.name
-        need = [f"{site}/Direct Integration", f"{site}/Total Process Target", f"{site}/Total Site Target"]
-        if any(k not in recs for k in need):
-            ctx.fail("site-record-missing", f"missing one of {need}", suite="site", input=prob, impl_output=list(recs), predicate="three site records")
-            continue
-        zones = [z for z in mz.subzones.values()]
-        zrecs = []
-        ok = True
-        for z in zones:
-            k = pc.di_key(z)
-            if k is None or k not in recs:
-                ok = False
-                break
-            zrecs.append(recs[k])
-        if not ok:
-            ctx.fail("site-record-missing", "a process zone has no direct-integration record", suite="site", input=prob, predicate="one DI record per zone")
-            continue
-        xs = prob["streams"]
-        cf.add(f"c09_b eps6 {qlit(c02.site_grid_slack(prob, recs[need[1]]))} [{'; '.join(c01.coq_sin(s) for s in xs)}] [{'; '.join(rec_coq(t) for t in zrecs)}] "
-               f"{rec_coq(recs[need[0]])} {rec_coq(recs[need[1]])} {rec_coq(recs[need[2]])}")
-        meta.append((prob, m, [recs[k] for k in need], zrecs))
+        # the top zone and every nested zone that carries the three site records (a Site inside a Site in a user tree)
+        sites = [mz] + [z for _, z in pc.walk_zones(mz) if z is not mz and f"{z.name}/Total Site Target" in recs and z.subzones]
+        for sz in sites:
+            site = sz.name
+            need = [f"{site}/Direct Integration", f"{site}/Total Process Target", f"{site}/Total Site Target"]
+            if any(k not in recs for k in need):
+                ctx.fail("site-record-missing", f"missing one of {need}", suite="site", input=prob, impl_output=list(recs), predicate="three site records")
+                continue
+            zones = [z for z in sz.subzones.values()]
+            zrecs = []
+            ok = True
+            for z in zones:
+                k = pc.di_key(z)
+                if k is None or k not in recs:
+                    ok = False
+                    break
+                zrecs.append(recs[k])
+            if not ok:
+                ctx.fail("site-record-missing", "a process zone has no direct-integration record", suite="site", input=prob, predicate="one DI record per zone")
+                continue
+            xs = prob["streams"] if sz is mz else c01.zone_inputs(prob, sz)
+            cf.add(f"c09_b eps6 {qlit(c02.site_grid_slack(prob, recs[need[1]]))} [{'; '.join(c01.coq_sin(s) for s in xs)}] [{'; '.join(rec_coq(t) for t in zrecs)}] "
+                   f"{rec_coq(recs[need[0]])} {rec_coq(recs[need[1]])} {rec_coq(recs[need[2]])}")
+            meta.append((prob, m, [recs[k] for k in need], zrecs))
     agree = bad = 0
     for (prob, m, (di, tz, ts), zrecs), v in zip(meta, cf.run()):
         ctx.evaluations += 1
